@@ -1,3 +1,5 @@
 from harness.props._engine_common import make
 
+GEN = ["Engine", "Stale"]
+
 explore, search, replay = make({"C01"})
